@@ -143,7 +143,14 @@ def record_random(args):
     for j in range(count):
         r = random.Random(f'{seed}/{j}')
         n = r.choice([2, 3, 4, 5, 6, 8])
-        a, b = chain_for(n, tag=r.randrange(3) + 1000 * seed, refunds=r.random() < 0.5, flags=r.choice(['00', '00', '01', '02', '80', '06']))
+        try:
+            a, b = chain_for(n, tag=r.randrange(3) + 1000 * seed, refunds=r.random() < 0.5, flags=r.choice(['00', '00', '01', '02', '80', '06']))
+        except Exception as e:
+            from ..scncheck import raised_in_repo
+            if not raised_in_repo(e):
+                raise
+            out.append({'n': n, 'hop': 0, 'nm': 'K', 'ix': 0, 'tm': '', 'refunds': [], 'got': f'setup:raised-{type(e).__name__}: {e}'[:200]})
+            continue
         if a.problems:
             out.append({'n': n, 'hop': 0, 'nm': 'K', 'ix': 0, 'tm': '', 'refunds': a.rhops, 'got': 'setup:' + a.problems[0]})
             continue
